@@ -41,6 +41,7 @@ FieldChoices ==
   \cup (IF "arith2" \in Forms THEN {Fd("arith2", "a_a_1", a, <<>>) : a \in AliasOpts} ELSE {})
   \cup {Fd(f, f, a, tg) : f \in Forms \cap {"top", "bottom"}, a \in AliasOpts, tg \in TagSeqs}
   \cup {Fd(f, f, a, tg[1]) @@ [ty |-> tg[2]] : f \in Forms \cap {"top", "bottom"}, a \in AliasOpts, tg \in TypedSeqs}
+  \cup (IF "distinct" \in Forms THEN {Fd("distinct", "distinct", a, <<>>) : a \in AliasOpts} ELSE {})   \* SELECT DISTINCT a [AS x]
   \cup (IF "lit" \in Forms THEN {Fd("lit", "", a, <<>>) : a \in AliasOpts} ELSE {})
 
 NAliased(fs) == Cardinality({i \in 1..Len(fs) : fs[i].a # ""})
@@ -64,6 +65,7 @@ ExprToks(fd) ==
     [] fd.f = "neg"    -> <<P("-"), IdT(fd.n)>>
     [] fd.f = "arith2" -> <<Id("a"), P("+"), Id("a_1")>>
     [] fd.f = "lit"    -> <<Int("1")>>
+    [] fd.f = "distinct" -> <<Kw("DISTINCT"), Id("a")>>
     [] fd.f = "dcall"  -> <<QId(fd.n), PT("("), IdT("v"), PT(","), Id("h"), PT(","), Int("2"), PT(")")>>
     [] fd.f = "call"   -> IF fd.n \in {"top", "bottom"}
                           THEN <<Id(fd.n), PT("("), IdT("v"), PT(","), Int("2"), PT(")")>>
@@ -106,6 +108,7 @@ Step == /\ Len(fields) < N
         /\ \E fd \in FieldChoices :
              LET fs == Append(fields, fd) IN
                /\ NAliased(fs) <= MaxAlias
+               /\ (fd.f = "distinct" => fields = <<>>) /\ (fields # <<>> => fields[1].f # "distinct")   \* the keyword form stands alone
                /\ fields' = fs
                /\ IF Emit THEN CSVWrite("%1$s", <<ToJson(Case(fs, tm, into))>>, CaseFile) ELSE TRUE
         /\ UNCHANGED <<tm, into>>
